@@ -1624,4 +1624,404 @@ theorem opBranches_split (env : Env) (g : LGraph) (hc : cteObjs g = []) (l : Lis
         · exact Or.inl (Or.inr a)
         · exact Or.inr (Or.inr a)
 
+/-! ## 7. the walk -/
+
+/-- what `exQuery` returns for a query of the fragment, started with write set `W` and no CTE in scope -/
+structure QRes (env : Env) (W : List DS) (q : Query) (g' : LGraph) : Prop where
+  inv : Inv g'
+  rd : ∀ d, d.isDataset = true → (RD g' d ↔ d ∈ dsQuery env [] q)
+  wr : ∀ d, d.isDataset = true → (WR g' d ↔ d ∈ W)
+
+theorem qres_of_adds (env : Env) (ctx : Ctx) (q : Query) (g' : LGraph) (S : List DS) (hc : ctx.cte = [])
+    (A : Adds (initHolder ctx) g' S) (hS : ∀ d, d.isDataset = true → (d ∈ S ↔ d ∈ dsQuery env [] q)) :
+    QRes env (ctx.write.map (·.d)) q g' :=
+  ⟨A.inv, fun d hd => by rw [A.rd d hd, hS d hd]; simp [initHolder_rd ctx hc d],
+   fun d hd => by rw [A.wr d hd, initHolder_wr ctx hc]⟩
+
+/-- `extract_subquery`: a sub‑holder computed for the subquery object `obj` is merged -/
+theorem sub_extract (env : Env) (g : LGraph) (q : Query) (obj : DObj) (h : LGraph) (hi : Inv g)
+    (hobj : obj.d.isDataset = false) (R : QRes env [obj.d] q h) : Adds g (composeSub g obj h) (dsQuery env [] q) :=
+  adds_composeSub g h obj _ hi hobj R.inv R.rd (fun d hd hw => by
+    have := (R.wr d hd).mp hw
+    simp only [List.mem_singleton] at this
+    rw [this, hobj] at hd
+    cases hd)
+
+theorem sqDirect_simple (env : Env) (e : Expr) (alias : Option String) (g g' : LGraph) (hn : noSub e = true) (hi : Inv g)
+    (h : sqDirect env true e alias g = .ok g') : Adds g g' (dsExpr env [] e) := by
+  rw [sqDirect_true_noSub env alias g e hn] at h
+  rw [← ok_inj h, dsExpr_noSub env [] e hn]
+  exact Adds.refl hi
+
+theorem cjExpr_simple (env : Env) (e : Expr) (g g' : LGraph) (hn : noSub e = true) (hi : Inv g)
+    (h : cjExpr env e g = .ok g') : Sub g g' (dsExpr env [] e) := by
+  rw [cjExpr_noSub env g e hn] at h
+  rw [← ok_inj h, dsExpr_noSub env [] e hn]
+  exact Sub.refl hi
+
+mutual
+theorem exQuery_ok (env : Env) : (q : Query) → (ctx : Ctx) → (g' : LGraph) → fragQ q = true → ctx.cte = [] →
+    exQuery env ctx q = .ok g' → QRes env (ctx.write.map (·.d)) q g'
+  | .select dist its frm wh grp hav, ctx, g', hf, hc, h => by
+    have hf' := hf
+    simp only [fragQ, Bool.and_eq_true] at hf'
+    obtain ⟨⟨⟨⟨hits, hfrm⟩, hwh⟩, hgrp⟩, hhav⟩ := hf'
+    simp only [exQuery, sqItems_noSub env its _ hits] at h
+    split at h
+    · cases h
+    · rename_i g2 h2
+      split at h
+      · cases h
+      · rename_i g3 h3
+        have A2 := sqFrom_ok env _ frm (initHolder ctx) g2 hfrm (initHolder_inv ctx hc) h2
+        have A3 := sqWhere_ok env wh g2 g3 hwh A2.inv h3
+        have A4 := adds_finishBranches env g3 _ g' A3.inv h
+        refine qres_of_adds env ctx _ g' _ hc ((A2.trans A3).trans A4) (fun d hd => ?_)
+        rw [sel_split env g3 (cteObjs_nil A3.inv.cte) dist its frm wh grp hav hf d hd]
+        simp only [fbTables, List.flatMap_cons, List.flatMap_nil, List.append_nil, List.mem_append]
+  | .setop first rest, ctx, g', hf, hc, h => by
+    have hf' := hf
+    simp only [fragQ, Bool.and_eq_true] at hf'
+    simp only [exQuery] at h
+    split at h
+    · cases h
+    · rename_i g1 h1
+      split at h
+      · cases h
+      · rename_i g2 h2
+        have A1 := sqBranch_ok env first (initHolder ctx) g1 hf'.1 (initHolder_inv ctx hc) h1
+        have A2 := sqOpBranches_ok env rest g1 g2 hf'.2 A1.inv h2
+        have A3 := adds_finishBranches env g2 _ g' A2.inv h
+        refine qres_of_adds env ctx _ g' _ hc ((A1.trans A2).trans A3) (fun d hd => ?_)
+        have hc2 := cteObjs_nil A2.inv.cte
+        have e1 := branch_split env g2 hc2 first hf'.1 d hd
+        have e2 := opBranches_split env g2 hc2 rest hf'.2 d hd
+        unfold fbTables at e2 ⊢
+        simp only [dsQuery, List.mem_append, List.map_append, List.flatMap_cons, e1, e2]
+        constructor
+        · rintro ((a | a) | (a | a))
+          · exact Or.inl (Or.inl a)
+          · exact Or.inr (Or.inl a)
+          · exact Or.inl (Or.inr a)
+          · exact Or.inr (Or.inr a)
+        · rintro ((a | a) | (a | a))
+          · exact Or.inl (Or.inl a)
+          · exact Or.inr (Or.inl a)
+          · exact Or.inl (Or.inr a)
+          · exact Or.inr (Or.inr a)
+  | .withq _ _, _, _, hf, _, _ => by simp [fragQ] at hf
+theorem sqWhere_ok (env : Env) : (wh : Option Expr) → (g g' : LGraph) → whereOKOpt wh = true → Inv g →
+    sqWhere env wh g = .ok g' → Adds g g' (dsOpt env [] wh)
+  | none, g, g', _, hi, h => by
+    simp only [sqWhere] at h
+    rw [← ok_inj h]
+    simp only [dsOpt]
+    exact Adds.refl hi
+  | some e, g, g', hf, hi, h => by
+    simp only [whereOKOpt] at hf
+    simp only [sqWhere] at h
+    simp only [dsOpt]
+    exact sqDirect_ok env e none g g' hf hi h
+theorem sqBranch_ok (env : Env) : (b : Branch) → (g g' : LGraph) → fragB b = true → Inv g →
+    sqBranch env b g = .ok g' → Adds g g' (dvBranch env b)
+  | .mk (.select dist its frm wh grp hav) br, g, g', hf, hi, h => by
+    simp only [fragB, Bool.and_eq_true] at hf
+    have hq := hf.2
+    simp only [fragQ, Bool.and_eq_true] at hq
+    obtain ⟨⟨⟨⟨hits, hfrm⟩, hwh⟩, hgrp⟩, hhav⟩ := hq
+    simp only [sqBranch, sqItems_noSub env its _ hits] at h
+    split at h
+    · cases h
+    · rename_i g2 h2
+      have A2 := sqFrom_ok env _ frm g g2 hfrm hi h2
+      have A3 := sqWhere_ok env wh g2 g' hwh A2.inv h
+      simp only [dvBranch]
+      exact A2.trans A3
+  | .mk (.setop _ _) _, _, _, hf, _, _ => by simp [fragB, isSelect] at hf
+  | .mk (.withq _ _) _, _, _, hf, _, _ => by simp [fragB, isSelect] at hf
+theorem sqOpBranches_ok (env : Env) : (l : List OpBranch) → (g g' : LGraph) → fragOBs l = true → Inv g →
+    sqOpBranches env l g = .ok g' → Adds g g' (dvOpBranches env l)
+  | [], g, g', _, hi, h => by
+    simp only [sqOpBranches] at h
+    rw [← ok_inj h]
+    simp only [dvOpBranches]
+    exact Adds.refl hi
+  | .mk op b :: r, g, g', hf, hi, h => by
+    simp only [fragOBs, Bool.and_eq_true] at hf
+    simp only [sqOpBranches] at h
+    split at h
+    · cases h
+    · rename_i g1 h1
+      have A1 := sqBranch_ok env b g g1 hf.1 hi h1
+      have A2 := sqOpBranches_ok env r g1 g' hf.2 A1.inv h
+      simp only [dvOpBranches]
+      exact A1.trans A2
+theorem sqFrom_ok (env : Env) (multi : Bool) : (frm : List FromExpr) → (g g' : LGraph) → fragFs frm = true → Inv g →
+    sqFrom env multi frm g = .ok g' → Adds g g' (dvFromExprs env frm)
+  | [], g, g', _, hi, h => by
+    simp only [sqFrom] at h
+    rw [← ok_inj h]
+    simp only [dvFromExprs]
+    exact Adds.refl hi
+  | .mk base js :: r, g, g', hf, hi, h => by
+    simp only [fragFs, fragF, Bool.and_eq_true] at hf
+    simp only [sqFrom] at h
+    split at h
+    · cases h
+    · rename_i g1 h1
+      have A1 := sqElem_ok env base g g1 hf.1.1 hi h1
+      by_cases hj : js.isEmpty = true
+      · rw [if_pos hj] at h
+        simp only at h
+        have A3 := sqFrom_ok env multi r g1 g' hf.2 A1.inv h
+        have hjs : js = [] := by simpa using hj
+        simp only [dvFromExprs, dvFromExpr, hjs, dvJoins, List.append_nil]
+        exact A1.trans A3
+      · rw [if_neg hj] at h
+        split at h
+        · cases h
+        · rename_i g2 h2
+          split at h2
+          · cases h2
+          · rename_i g1' h1'
+            have B := cjElem_ok env base g1 g1' hf.1.1 A1.inv h1'
+            have A1' := A1.absorb B (fun d _ hd => hd)
+            have C := cjJoins_ok env js g1' g2 hf.1.2 A1'.inv h2
+            have A3 := sqFrom_ok env multi r g2 g' hf.2 C.inv h
+            simp only [dvFromExprs, dvFromExpr]
+            exact (A1'.trans C).trans A3
+theorem sqElem_ok (env : Env) : (e : FromElem) → (g g' : LGraph) → fragE e = true → Inv g →
+    sqElem env e g = .ok g' → Adds g g' (dvElem env e)
+  | .table _ _ _, g, g', _, hi, h => by
+    simp only [sqElem] at h
+    rw [← ok_inj h]
+    simp only [dvElem]
+    exact Adds.refl hi
+  | .derived q alias k, g, g', hf, hi, h => by
+    simp only [fragE] at hf
+    simp only [sqElem] at h
+    split at h
+    · cases h
+    · rename_i hh h1
+      have R := exQuery_ok env q _ hh hf (cteObjs_nil hi.cte) h1
+      rw [← ok_inj h]
+      simp only [dvElem]
+      exact sub_extract env g q _ hh hi (mkSubq_isDataset _ _) R
+theorem sqDirect_ok (env : Env) : (e : Expr) → (alias : Option String) → (g g' : LGraph) → whereOK e = true → Inv g →
+    sqDirect env true e alias g = .ok g' → Adds g g' (dsExpr env [] e)
+  | .bin _ a b, alias, g, g', hf, hi, h => by
+    simp only [whereOK, Bool.and_eq_true] at hf
+    simp only [sqDirect] at h
+    split at h
+    · cases h
+    · rename_i g1 h1
+      have A1 := sqDirect_ok env a alias g g1 hf.1 hi h1
+      have A2 := sqDirect_ok env b alias g1 g' hf.2 A1.inv h
+      simp only [dsExpr]
+      exact A1.trans A2
+  | .subq q, alias, g, g', hf, hi, h => by
+    simp only [whereOK] at hf
+    simp only [sqDirect] at h
+    split at h
+    · cases h
+    · rename_i hh h1
+      have R := exQuery_ok env q _ hh hf (cteObjs_nil hi.cte) h1
+      rw [← ok_inj h]
+      simp only [dsExpr]
+      exact sub_extract env g q _ hh hi (mkSubq_isDataset _ _) R
+  | .inSubq x _ q, alias, g, g', hf, hi, h => by
+    simp only [whereOK, Bool.and_eq_true] at hf
+    simp only [sqDirect] at h
+    split at h
+    · cases h
+    · rename_i hh h1
+      have R := exQuery_ok env q _ hh hf.2 (cteObjs_nil hi.cte) h1
+      rw [← ok_inj h]
+      simp only [dsExpr, dsExpr_noSub env [] x hf.1, List.nil_append]
+      exact sub_extract env g q _ hh hi (mkSubq_isDataset _ _) R
+  | .exist _ q, alias, g, g', hf, hi, h => by
+    simp only [whereOK] at hf
+    simp only [sqDirect] at h
+    split at h
+    · cases h
+    · rename_i hh h1
+      have R := exQuery_ok env q _ hh hf (cteObjs_nil hi.cte) h1
+      rw [← ok_inj h]
+      simp only [dsExpr]
+      exact sub_extract env g q _ hh hi (mkSubq_isDataset _ _) R
+  | .col q n, alias, g, g', _, hi, h => sqDirect_simple env _ alias g g' (by simp only [noSub]) hi h
+  | .star q, alias, g, g', _, hi, h => sqDirect_simple env _ alias g g' (by simp only [noSub]) hi h
+  | .lit x, alias, g, g', _, hi, h => sqDirect_simple env _ alias g g' (by simp only [noSub]) hi h
+  | .func n d as ov, alias, g, g', hf, hi, h => sqDirect_simple env _ alias g g' (by rw [← whereOK_func]; exact hf) hi h
+  | .cast e t, alias, g, g', hf, hi, h => sqDirect_simple env _ alias g g' (by rw [← whereOK_cast]; exact hf) hi h
+  | .case ws els, alias, g, g', hf, hi, h => sqDirect_simple env _ alias g g' (by rw [← whereOK_case]; exact hf) hi h
+  | .paren e, alias, g, g', hf, hi, h => sqDirect_simple env _ alias g g' (by rw [← whereOK_paren]; exact hf) hi h
+theorem cjWhere_ok (env : Env) : (e : Expr) → (g g' : LGraph) → whereOK e = true → Inv g →
+    cjExpr env e g = .ok g' → Sub g g' (dsExpr env [] e)
+  | .bin _ a b, g, g', hf, hi, h => by
+    simp only [whereOK, Bool.and_eq_true] at hf
+    simp only [cjExpr_bin] at h
+    split at h
+    · cases h
+    · rename_i g1 h1
+      have A1 := cjWhere_ok env a g g1 hf.1 hi h1
+      have A2 := cjWhere_ok env b g1 g' hf.2 A1.inv h
+      simp only [dsExpr]
+      exact A1.trans A2
+  | .subq q, g, g', hf, hi, h => by
+    simp only [whereOK] at hf
+    simp only [cjExpr_subq] at h
+    simp only [dsExpr]
+    exact cjQuery_ok env q g g' hf hi h
+  | .inSubq x _ q, g, g', hf, hi, h => by
+    simp only [whereOK, Bool.and_eq_true] at hf
+    simp only [cjExpr_inSubq, cjExpr_noSub env g x hf.1] at h
+    simp only [dsExpr, dsExpr_noSub env [] x hf.1, List.nil_append]
+    exact cjQuery_ok env q g g' hf.2 hi h
+  | .exist _ q, g, g', hf, hi, h => by
+    simp only [whereOK] at hf
+    simp only [cjExpr_exist] at h
+    simp only [dsExpr]
+    exact cjQuery_ok env q g g' hf hi h
+  | .col q n, g, g', _, hi, h => cjExpr_simple env _ g g' (by simp only [noSub]) hi h
+  | .star q, g, g', _, hi, h => cjExpr_simple env _ g g' (by simp only [noSub]) hi h
+  | .lit x, g, g', _, hi, h => cjExpr_simple env _ g g' (by simp only [noSub]) hi h
+  | .func n d as ov, g, g', hf, hi, h => cjExpr_simple env _ g g' (by rw [← whereOK_func]; exact hf) hi h
+  | .cast e t, g, g', hf, hi, h => cjExpr_simple env _ g g' (by rw [← whereOK_cast]; exact hf) hi h
+  | .case ws els, g, g', hf, hi, h => cjExpr_simple env _ g g' (by rw [← whereOK_case]; exact hf) hi h
+  | .paren e, g, g', hf, hi, h => cjExpr_simple env _ g g' (by rw [← whereOK_paren]; exact hf) hi h
+theorem cjOptWhere_ok (env : Env) : (wh : Option Expr) → (g g' : LGraph) → whereOKOpt wh = true → Inv g →
+    cjOptExpr env wh g = .ok g' → Sub g g' (dsOpt env [] wh)
+  | none, g, g', _, hi, h => by
+    simp only [cjOptExpr_none] at h
+    rw [← ok_inj h]
+    simp only [dsOpt]
+    exact Sub.refl hi
+  | some e, g, g', hf, hi, h => by
+    simp only [whereOKOpt] at hf
+    simp only [cjOptExpr_some] at h
+    simp only [dsOpt]
+    exact cjWhere_ok env e g g' hf hi h
+theorem cjQuery_ok (env : Env) : (q : Query) → (g g' : LGraph) → fragQ q = true → Inv g →
+    cjQuery env q g = .ok g' → Sub g g' (dsQuery env [] q)
+  | .select dist its frm wh grp hav, g, g', hf, hi, h => by
+    simp only [fragQ, Bool.and_eq_true] at hf
+    obtain ⟨⟨⟨⟨hits, hfrm⟩, hwh⟩, hgrp⟩, hhav⟩ := hf
+    simp only [cjQuery, cjItems_noSub env its g hits] at h
+    split at h
+    · cases h
+    · rename_i g2 h2
+      split at h
+      · cases h
+      · rename_i g3 h3
+        simp only [cjExpr_noSubL env g3 grp hgrp, cjOptExpr_noSub env g3 hav hhav] at h
+        have B2 := cjFromExprs_ok env frm g g2 hfrm hi h2
+        have B3 := cjOptWhere_ok env wh g2 g3 hwh B2.inv h3
+        rw [← ok_inj h]
+        refine (B2.trans B3).weaken (fun d _ hm => ?_)
+        simp only [dsQuery, List.mem_append] at hm ⊢
+        rcases hm with hm | hm
+        · exact Or.inl (Or.inl (Or.inl (Or.inl (dvFromExprs_sub env frm d hm))))
+        · exact Or.inl (Or.inl (Or.inr hm))
+  | .setop first rest, g, g', hf, hi, h => by
+    simp only [fragQ, Bool.and_eq_true] at hf
+    simp only [cjQuery] at h
+    split at h
+    · cases h
+    · rename_i g1 h1
+      have B1 := cjBranch_ok env first g g1 hf.1 hi h1
+      have B2 := cjOpBranches_ok env rest g1 g' hf.2 B1.inv h
+      simp only [dsQuery]
+      exact B1.trans B2
+  | .withq _ _, _, _, hf, _, _ => by simp [fragQ] at hf
+theorem cjBranch_ok (env : Env) : (b : Branch) → (g g' : LGraph) → fragB b = true → Inv g →
+    cjBranch env b g = .ok g' → Sub g g' (dsBranch env [] b)
+  | .mk q _, g, g', hf, hi, h => by
+    simp only [fragB, Bool.and_eq_true] at hf
+    simp only [cjBranch] at h
+    simp only [dsBranch]
+    exact cjQuery_ok env q g g' hf.2 hi h
+theorem cjOpBranches_ok (env : Env) : (l : List OpBranch) → (g g' : LGraph) → fragOBs l = true → Inv g →
+    cjOpBranches env l g = .ok g' → Sub g g' (dsOpBranches env [] l)
+  | [], g, g', _, hi, h => by
+    simp only [cjOpBranches] at h
+    rw [← ok_inj h]
+    simp only [dsOpBranches]
+    exact Sub.refl hi
+  | .mk op b :: r, g, g', hf, hi, h => by
+    simp only [fragOBs, Bool.and_eq_true] at hf
+    simp only [cjOpBranches] at h
+    split at h
+    · cases h
+    · rename_i g1 h1
+      have B1 := cjBranch_ok env b g g1 hf.1 hi h1
+      have B2 := cjOpBranches_ok env r g1 g' hf.2 B1.inv h
+      simp only [dsOpBranches]
+      exact B1.trans B2
+theorem cjElem_ok (env : Env) : (e : FromElem) → (g g' : LGraph) → fragE e = true → Inv g →
+    cjElem env e g = .ok g' → Sub g g' (dvElem env e)
+  | .table _ _ _, g, g', _, hi, h => by
+    simp only [cjElem] at h
+    rw [← ok_inj h]
+    simp only [dvElem]
+    exact Sub.refl hi
+  | .derived q _ _, g, g', hf, hi, h => by
+    simp only [fragE] at hf
+    simp only [cjElem] at h
+    simp only [dvElem]
+    exact cjQuery_ok env q g g' hf hi h
+theorem cjJoins_ok (env : Env) : (l : List Join) → (g g' : LGraph) → fragJs l = true → Inv g →
+    cjJoins env l g = .ok g' → Adds g g' (dvJoins env l)
+  | [], g, g', _, hi, h => by
+    simp only [cjJoins] at h
+    rw [← ok_inj h]
+    simp only [dvJoins]
+    exact Adds.refl hi
+  | .mk k e on u :: r, g, g', hf, hi, h => by
+    simp only [fragJs, Bool.and_eq_true] at hf
+    simp only [cjJoins] at h
+    split at h
+    · cases h
+    · rename_i g1 h1
+      split at h
+      · cases h
+      · rename_i g2 h2
+        simp only [cjOptExpr_noSub env g2 on hf.1.2] at h
+        have A1 := sqElem_ok env e g g1 hf.1.1 hi h1
+        have B := cjElem_ok env e g1 g2 hf.1.1 A1.inv h2
+        have A1' := A1.absorb B (fun d _ hd => hd)
+        have A3 := cjJoins_ok env r g2 g' hf.2 A1'.inv h
+        simp only [dvJoins]
+        exact A1'.trans A3
+theorem cjFromExpr_ok (env : Env) : (f : FromExpr) → (g g' : LGraph) → fragF f = true → Inv g →
+    cjFromExpr env f g = .ok g' → Sub g g' (dvFromExpr env f)
+  | .mk base js, g, g', hf, hi, h => by
+    simp only [fragF, Bool.and_eq_true] at hf
+    simp only [cjFromExpr] at h
+    split at h
+    · cases h
+    · rename_i g1 h1
+      have B1 := cjElem_ok env base g g1 hf.1 hi h1
+      have A2 := cjJoins_ok env js g1 g' hf.2 B1.inv h
+      simp only [dvFromExpr]
+      exact B1.trans A2.toSub
+theorem cjFromExprs_ok (env : Env) : (l : List FromExpr) → (g g' : LGraph) → fragFs l = true → Inv g →
+    cjFromExprs env l g = .ok g' → Sub g g' (dvFromExprs env l)
+  | [], g, g', _, hi, h => by
+    simp only [cjFromExprs] at h
+    rw [← ok_inj h]
+    simp only [dvFromExprs]
+    exact Sub.refl hi
+  | f :: r, g, g', hf, hi, h => by
+    simp only [fragFs, Bool.and_eq_true] at hf
+    simp only [cjFromExprs] at h
+    split at h
+    · cases h
+    · rename_i g1 h1
+      have B1 := cjFromExpr_ok env f g g1 hf.1 hi h1
+      have B2 := cjFromExprs_ok env r g1 g' hf.2 B1.inv h
+      simp only [dvFromExprs]
+      exact B1.trans B2
+end
+
 end SqlLineage.Proofs.ReadsExact
